@@ -611,6 +611,22 @@ func (vc *FuncVC) loadObj(st *State, ref Term, t types.Type) Val {
 		}
 		return sv
 	case *types.Array:
+		if _, isSt := u.Elem().Underlying().(*types.Struct); isSt {
+			zv, _ := enc.zeroVal(t).(*AV)
+			if zv == nil {
+				vc.unsupportedf("load of array with aggregate elements: %s", t)
+			}
+			cur := zv
+			for i := int64(0); i < u.Len(); i++ {
+				ev := vc.loadObj(st, vc.elemRef(ref, enc.idxLit(i)), u.Elem())
+				cur = enc.setElemOfAV(cur, enc.idxLit(i), ev, func(t Term) Term { return t })
+			}
+			out := &AV{T: t}
+			for _, l := range cur.L {
+				out.L = append(out.L, vc.sc.Def("arrs", l))
+			}
+			return out
+		}
 		if isAggregate(u.Elem()) {
 			inner, ok := u.Elem().Underlying().(*types.Array)
 			if !ok || u.Len() > 16 || isAggregate(inner.Elem()) {
@@ -653,6 +669,12 @@ func (vc *FuncVC) storeObj(st *State, ref Term, v Val) {
 		}
 	case *AV:
 		u := x.T.Underlying().(*types.Array)
+		if _, isSt := u.Elem().Underlying().(*types.Struct); isSt {
+			for i := int64(0); i < u.Len(); i++ {
+				vc.storeObj(st, vc.elemRef(ref, enc.idxLit(i)), enc.elemOfAV(x, enc.idxLit(i)))
+			}
+			return
+		}
 		if inner, ok := u.Elem().Underlying().(*types.Array); ok {
 			for li, l := range enc.Leaves(inner.Elem()) {
 				key := vc.memKey(inner.Elem(), l.Name)
